@@ -140,3 +140,59 @@ def witness_commitment(ex, cb, commit, other):
     root = _hashes.hash256(b"\x00" * 32 + leaf)
     want = _hashes.hash256(root + stack[0])
     return {"accepted_iff_commitment_matches": iff(ok, cbytes == want)}
+
+
+# ------------------------------------------------------------------ BIP152: reconstruction from a compact block and a pool, short ids an arbitrary function
+from btclib.p2p import compact_blocks as _cb
+
+
+def _ctx_tx(k):
+    return Tx(2, k, [TxIn(OutPoint(bytes([0x60 + k]) * 32, 0, check_validity=False), b"", 0xFFFFFFFF, Witness(), check_validity=False)], [TxOut(10 + k, b"\x51", check_validity=False)], check_validity=False)
+
+
+@ob("C17", "compact_block_reconstruction_places_only_the_right_transactions", quick=[dict(npool=n, prefilled_mid=m) for n in (1, 2, 3) for m in (0, 1)], thorough=[dict(npool=n, prefilled_mid=m) for n in (1, 2, 3, 4) for m in (0, 1)],
+    bound="a block of a coinbase and three transactions announced with the coinbase (and optionally the second transaction) prefilled; the short id of every transaction -- the block's own and "
+          "a decoy's -- is a symbolic value over 0..3, so unique ids, colliding announced ids and pool collisions all occur; the pool holds the first npool of (tx1, decoy, tx2, tx3): "
+          "colliding announced ids are refused; otherwise a position whose transaction is in the pool is filled with exactly that transaction unless another pool member shares its id, in which case it is left "
+          "missing; a position whose transaction is not in the pool is missing or holds a pool member of the same short id (the merkle root check is what catches that)",
+    stubs=["compact_blocks._short_id is an arbitrary function of the transaction with values 0..3"],
+    functions=["btclib.p2p.compact_blocks.reconstruct"], min_ok=1, timeout=600)
+def compact_reconstruct(ex, npool, prefilled_mid):
+    txs = [_ctx_tx(k) for k in range(1, 4)]
+    decoy = _ctx_tx(7)
+    everyone = txs + [decoy]
+    ids = {bytes(t.hash): ex.int(f"sid{k}", 0, 3) for k, t in enumerate(everyone)}
+    ex.stub(_cb._short_id, lambda key, wtxid: ids[bytes(wtxid)])
+    block, _ = _wblock([], 0, 0, b"\x00" * 32)
+    coinbase = block.transactions[0]
+    prefilled = [_cb.PrefilledTransaction(0, coinbase)]
+    announced = [0, 1, 2]
+    if prefilled_mid:
+        prefilled.append(_cb.PrefilledTransaction(2, txs[1]))
+        announced = [0, 2]
+    short_ids = [ids[bytes(txs[k].hash)] for k in announced]
+    cmpct = _cb.CmpctBlock(block.header, 5, short_ids, prefilled, check_validity=False)
+    pool = [txs[0], decoy, txs[1], txs[2]][:npool]
+    unique = sand(*[short_ids[a] != short_ids[b] for a in range(len(short_ids)) for b in range(a + 1, len(short_ids))]) if len(short_ids) > 1 else True
+    try:
+        pb = _cb.reconstruct(cmpct, pool)
+    except BTClibValueError:
+        return {"refused_only_colliding_announced_ids": snot(unique)}
+    got = list(pb.transactions)
+    claims = {"announced_ids_were_unique": unique, "shape": len(got) == 4, "coinbase_in_place": got[0] is coinbase}
+    for pos, k in zip([1 + a for a in announced], announced):
+        t = got[pos]
+        mine = ids[bytes(txs[k].hash)]
+        others = [p for p in pool if p is not txs[k]]
+        clash = sor(*[ids[bytes(o.hash)] == mine for o in others]) if others else False
+        in_pool = any(p is txs[k] for p in pool)
+        if t is None:
+            claims[f"position_{pos}_missing_only_if_absent_or_collided"] = sor(not in_pool, clash)
+        elif in_pool:
+            claims[f"position_{pos}_holds_the_blocks_transaction"] = sand(t is txs[k], snot(clash))
+        else:
+            # the block's transaction is not in the pool: BIP152 cannot tell a pool member with the same short id from it (the merkle root will)
+            claims[f"position_{pos}_filled_only_by_a_same_id_transaction"] = ids[bytes(t.hash)] == mine
+    if prefilled_mid:
+        claims["prefilled_in_place"] = got[2] is txs[1]
+    return claims
